@@ -98,6 +98,13 @@ theorem walk_wf (env : Env) (mem : Option Mem) (ctx : Ctx) :
     · intro hs
       exact ⟨m, hm, (hl.scan hs).1, (hl.scan hs).2⟩
 
+/-- "the architecture's call adjustment" and the 4096 cut-off, as the property text has them; the
+    model's values are translated from the Rust sources on every run — a change there breaks this. -/
+theorem adjustment_table :
+    Arch.x86.adj = 1 ∧ Arch.amd64.adj = 1 ∧ Arch.arm.adj = 2 ∧ Arch.arm64.adj = 4 ∧ Arch.arm64old.adj = 4 ∧
+    Arch.mips32.adj = 8 ∧ Arch.mips64.adj = 8 ∧ (∀ a : Arch, a.nullish = 4096) :=
+  ⟨rfl, rfl, rfl, rfl, rfl, rfl, rfl, nullish_eq⟩
+
 /-- **C03 (walk bound), also part of "makes progress".** No thread is walked for more frames than
     its stack memory has bytes, plus two. -/
 theorem walk_bound (env : Env) (mem : Option Mem) (ctx : Ctx) :
